@@ -3,6 +3,8 @@ package c07
 import (
 	"errors"
 	"fmt"
+	"io"
+	"log/slog"
 	"path/filepath"
 	"strconv"
 	"sync"
@@ -14,6 +16,7 @@ import (
 	"pgregory.net/rapid"
 
 	"github.com/form3tech-oss/f1/v2/internal/metrics"
+	"github.com/form3tech-oss/f1/v2/internal/ui"
 	f1testing "github.com/form3tech-oss/f1/v2/pkg/f1/testing"
 	"github.com/form3tech-oss/f1/v2/verifharness/vlib"
 )
@@ -142,8 +145,13 @@ func TestProp_ContainedAndClassified(t *testing.T) {
 		spec := &vlib.RunSpec{Mode: mode, Flags: flags, FileYAML: yaml, FileDir: dir, ScenarioFn: scenario, WaitTimeout: 20 * time.Second}
 		// where the iterations' log lines (the failure and panic reports) go: the run's output (verbose),
 		// a log file, or - when LOG_FILE_PATH cannot be opened - back to the run's output
-		logTo := rapid.SampledFrom([]string{"output", "output", "output", "file", "unopenable-file"}).Draw(rt, "logTo")
+		logTo := rapid.SampledFrom([]string{"output", "output", "output", "file", "unopenable-file", "silent-logger"}).Draw(rt, "logTo")
 		switch logTo {
+		case "silent-logger":
+			// a caller-supplied logger (f1.WithLogger) that emits nothing, not even errors: how much is
+			// logged has no bearing on what counts as a failure
+			silent := slog.New(slog.NewTextHandler(io.Discard, &slog.HandlerOptions{Level: slog.Level(100)}))
+			spec.Output = ui.NewOutput(silent, ui.NewDiscardPrinter(), false, false)
 		case "file":
 			spec.LogFilePath = filepath.Join(dir, "scenario.log")
 		case "unopenable-file":
